@@ -337,3 +337,4 @@ def run(run, tier, loadcfg):
         check_shapes(run, cx, cfg)
         check_window_iter(run, cx, cfg)
         check_windower(run, cx, cfg)
+        check_overrides(run, cx, cfg, 'window.inventory', lambda p: p.startswith('dasp_signal::window::'), evaluated={fn for _, fn, _, _ in run.instances}, minimum=4)
